@@ -48,7 +48,7 @@ type optCase struct {
 func compileWith(q *gojq.Query, mask uint32) (*gojq.Code, error) {
 	old := gojq.VerifSetOptOff(mask)
 	defer gojq.VerifSetOptOff(old)
-	return gojq.Compile(q)
+	return gojq.Compile(q, gojq.WithEnvironLoader(gen.EnvLoader))
 }
 
 func codeText(c *gojq.Code) string {
@@ -418,7 +418,7 @@ func TestC04(t *testing.T) {
 	// checked by the repo's suite; here: switching nothing changes nothing)
 	probe, _ := gojq.Parse(`[1,2,3] | {a: .[0]} | .a + 1 | if . then -1 else "x" end`)
 	c0, _ := compileWith(probe, 0)
-	c1, _ := gojq.Compile(probe)
+	c1, _ := gojq.Compile(probe, gojq.WithEnvironLoader(gen.EnvLoader))
 	if codeText(c0) != codeText(c1) {
 		t.Fatalf("mask 0 changes the emitted code")
 	}
@@ -457,7 +457,7 @@ func TestC04(t *testing.T) {
 	}
 
 	inputs := inputGen()
-	biased := gen.RewriteBiased(gen.Conf{AltPat: true, AltPatFree: true, Paths: true, Builtins: true, Halt: true})
+	biased := gen.RewriteBiased(gen.Conf{Env: true, AltPat: true, AltPatFree: true, Paths: true, Builtins: true, Halt: true})
 	rec.Rapid(t, "biased", rec.Scale(40000, 700000), func(t *rapid.T) {
 		p := biased.Draw(t, "prog")
 		c := optCase{Query: p.Src, Input: univ.V{X: inputs.Draw(t, "input")}, Masks: masks(t), Features: p.Features}
